@@ -877,6 +877,9 @@ func (fr *Frame) checkLockInv(st *State, li *LockInv, ref *Term, n ast.Node) {
 
 // guardedWrite: a write to a lock-protected field requires the lock (in W mode).
 func (fr *Frame) guardedWrite(st *State, l *Loc, n ast.Node) {
+	if fr.top.fc != nil && fr.top.fc.Options["constructing"] != "" {
+		return // objects under construction are not shared yet (see checkLockInv)
+	}
 	if l == nil || l.Kind != LHeap {
 		if l != nil && (l.Kind == LIndex || l.Kind == LField) {
 			fr.guardedWrite(st, l.Base, n)
